@@ -44,231 +44,240 @@ func runC11(r *mc.Run) {
 	if r.Thorough() {
 		bound = 3
 	}
-	r.Explore("honest-worlds", bound, func(c *mc.Ctx) {
-		fill := c.Choose("fill", len(fills))
-		al := c.Choose("authlen", len(authLens))
-		el := c.Choose("extra", len(extraLens))
-		nul := c.Choose("nul", 2)
-		sv := c.Choose("cpusvn", len(svnVecs))
-		pc := c.Choose("pcesvn", len(pceSvns))
-		fm := c.Choose("fmspc", len(fmspcs))
-		fcase := c.Choose("fmspc-case", 2)
-		lpos := c.Choose("level-position", 4)
-		svn1 := c.Choose("tee-svn1", 3)
-		qmask := c.Choose("qe-masks", 3)
-		crl := c.Choose("crl-contents", 4)
-		tm := c.Choose("times", 3)
-		pool := c.Choose("pool", 3)
-		li := c.Free("level", 3)
-		// (further dimensions are chosen below; the final id is taken after the last of them)
-		if id0 := "honest/" + c.ID(); r.ReplayID != "" && id0 != "honest/default" && !strings.HasPrefix(r.ReplayID, id0) {
-			return
+	// the whole exploration runs at the logger's default level and, with one deviation fewer, at verbosity 2
+	for _, lvl := range []int{0, 2} {
+		world.SetLogLevel(lvl)
+		exName, exBound := "honest-worlds", bound
+		if lvl != 0 {
+			exName, exBound = "honest-worlds/log-level=2", bound-1
 		}
-		w := world.Honest("T")
-		w.Plat.CPUSVN = svnVecs[sv]
-		w.Plat.PCESVN = pceSvns[pc]
-		w.Plat.FMSPC = fmspcs[fm]
-		ids := c.Choose("identifier-contents", 3)
-		switch ids {
-		case 1: // identifiers whose leading bytes read as a DER header of exactly the remaining length
-			w.Plat.PPID = append([]byte{0x04, 0x0e}, world.Fill("c11-ppid", 14)...)
-			w.Plat.PCEID = []byte{0x04, 0x00}
-			w.Plat.FMSPC = []byte{0x04, 0x04, 0xa1, 0xb2, 0xc3, 0xd4}
-		case 2: // ... of a SEQUENCE / INTEGER
-			w.Plat.PPID = append([]byte{0x30, 0x0e}, world.Fill("c11-ppid2", 14)...)
-			w.Plat.PCEID = []byte{0x02, 0x00}
-			w.Plat.FMSPC = []byte{0x02, 0x04, 0x7f, 0x00, 0x00, 0x01}
-		}
-		if sv != 0 || pc != 0 || fm != 0 || ids != 0 {
-			w.PKI = T.WithLeaf(w.Plat)
-		}
-		attKey := world.NewKey("att")
-		if ks := c.Choose("attestation-key-shape", 4); ks != 0 {
-			// keys whose X / Y coordinate starts with a zero octet (1 in 128 fresh keys), or with the high bit set
-			for n := 0; ; n++ {
-				k := world.NewKey(fmt.Sprintf("c11-att-shape%d-%d", ks, n))
-				raw := k.Raw64()
-				if (ks == 1 && raw[0] == 0) || (ks == 2 && raw[32] == 0) || (ks == 3 && raw[0] >= 0x80 && raw[32] >= 0x80) {
-					attKey = k
-					break
-				}
-			}
-		}
-		sp := world.QuoteSpec{PKI: w.PKI, AttKey: attKey, Auth: world.Fill("c11-auth", authLens[al]), Extra: world.Fill("c11-extra", extraLens[el]), NulAfter: nul == 1,
-			FillLabel: "c11", PceSvn: 0x0d07, QeSvn: 0x0208}
-		sp.TeeTcbSvn = []byte{3, []byte{0, 3, 0x0a}[svn1], 5, 0, 0, 0, 0, 0, 0, 0, 0, 0, 0, 0, 0, 1}
-		sp.MrSeamSigner = world.Fill("c11-seam", 48)
-		sp.SeamAttrs = []byte{1, 2, 3, 4, 5, 6, 7, 8}
-		sp.IsvProdID, sp.IsvSvn, sp.MiscSelect = 2, 8, 0x00ff00ff
-		sp.Attributes = []byte{0x15, 0, 0, 0, 0, 0, 0, 0, 0xe7, 0, 0, 0, 0, 0, 0, 0}
-		w.Spec = sp
-		p := sp.Parts()
-		// contents of the fields nothing else depends on
-		if fill != 0 {
-			v := byte(0)
-			if fills[fill] == "ff" {
-				v = 0xff
-			}
-			set := func(b []byte) {
-				for i := range b {
-					b[i] = v
-				}
-			}
-			set(p.Header[8:12])  // PCE SVN, QE SVN
-			set(p.Header[12:48]) // vendor id, user data
-			for _, f := range world.BodyFields {
-				if f.Name != "tee_tcb_svn" && f.Name != "mr_signer_seam" && f.Name != "seam_attributes" {
-					set(p.Body[f.Off : f.Off+f.Len])
-				}
-			}
-			for _, f := range world.QEReportFields {
-				switch f.Name {
-				case "cpu_svn", "reserved1", "mr_enclave", "reserved2", "reserved3", "reserved4":
-					set(p.QEReport[f.Off : f.Off+f.Len])
-				}
-			}
-			p.SignBody(attKey)
-			p.SignQE(w.PKI.LeafKey)
-		}
-		w.Parts = p
-		// collateral that matches this platform the way Intel would publish it
-		tee := p.Body[0:16]
-		ti := world.DefaultTcbInfo(w.Plat, tee)
-		ti.TdxModule = world.TdxModule{Mrsigner: hexs(sp.MrSeamSigner), Attributes: "0102030405060708", AttributesMask: "FFFFFFFFFFFFFFFF"}
-		if fcase == 1 {
-			ti.Fmspc = strings.ToUpper(ti.Fmspc)
-		}
-		match := world.PlatformLevel(w.Plat, tee, "UpToDate")
-		if tee[1] != 0 && c.Choose("level-tdx-components-0-1", 2) == 1 {
-			// with a non-zero module version the first two TDX components are not compared with the level's
-			nm := append([]world.Comp(nil), match.Tcb.Tdx...)
-			nm[0].Svn, nm[1].Svn = 255, int(tee[1])+1
-			match.Tcb.Tdx = nm
-		}
-		var before []world.Level
-		for k := 0; k < lpos && k < 3; k++ {
-			// levels that do not match: one component above the platform's, each with a different non-UpToDate status
-			l := world.PlatformLevel(w.Plat, tee, world.Statuses[1+2*k])
-			nm := append([]world.Comp(nil), l.Tcb.Tdx...)
-			nm[2+k].Svn = int(tee[2+k]) + 1 + k
-			l.Tcb.Tdx = nm
-			before = append(before, l)
-		}
-		lastDate := "2020-01-01T00:00:00Z"
-		if dm := c.Choose("level-dates", 3); dm != 0 {
-			if dm == 1 {
-				lastDate = "2026-01-01T00:00:00Z" // the always-matching OutOfDate level listed last is the newest
-			}
-			// dates that run against the listed order (or with it): the first matching level decides
-			for i := range before {
-				before[i].TcbDate = fmt.Sprintf("20%02d-03-01T00:00:00Z", map[int]int{1: 20 + i, 2: 35 - i}[dm])
-			}
-			match.TcbDate = fmt.Sprintf("20%02d-03-01T00:00:00Z", map[int]int{1: 24, 2: 30}[dm])
-		}
-		ti.TcbLevels = append(before, match, world.Level{Tcb: world.Tcb{Sgx: world.CompsOf(make([]byte, 16)), Pcesvn: world.IntP(0), Tdx: world.CompsOf(make([]byte, 16))}, TcbDate: lastDate, TcbStatus: "OutOfDate"})
-		if tee[1] != 0 {
-			ti.TdxModuleIdentities = []world.ModuleIdentity{
-				{ID: "TDX_01", Mrsigner: strings.Repeat("00", 48), Attributes: "0000000000000000", AttributesMask: "FFFFFFFFFFFFFFFF",
-					TcbLevels: []world.Level{{Tcb: world.Tcb{Isvsvn: world.IntP(2)}, TcbDate: "2029-01-01T00:00:00Z", TcbStatus: "OutOfDate"}}},
-				{ID: fmt.Sprintf("TDX_%02x", tee[1]), Mrsigner: strings.Repeat("00", 48), Attributes: "0000000000000000", AttributesMask: "FFFFFFFFFFFFFFFF",
-					TcbLevels: []world.Level{{Tcb: world.Tcb{Isvsvn: world.IntP(9)}, TcbDate: "2029-03-01T00:00:00Z", TcbStatus: "Revoked"},
-						{Tcb: world.Tcb{Isvsvn: world.IntP(int(tee[0]))}, TcbDate: "2029-01-01T00:00:00Z", TcbStatus: "UpToDate"},
-						{Tcb: world.Tcb{Isvsvn: world.IntP(1)}, TcbDate: "2028-01-01T00:00:00Z", TcbStatus: "OutOfDate"}}}}
-		}
-		w.TcbInfo = ti
-		qe := world.DefaultQeIdentity()
-		qe.IsvProdID = 2
-		ms := make([]byte, 4)
-		binary.LittleEndian.PutUint32(ms, sp.MiscSelect)
-		switch qmask {
-		case 0:
-			qe.Miscselect, qe.MiscselectMask = hexs(ms), "FFFFFFFF"
-			qe.Attributes, qe.AttributesMask = hexs(p.QEReport[48:64]), strings.Repeat("FF", 16)
-		case 1: // masks that hide part of the value
-			qe.Miscselect, qe.MiscselectMask = "ff00ff00", "ff00ff00"
-			qe.Attributes, qe.AttributesMask = "11000000000000000000000000000000", "fbffffffffffffff0000000000000000"
-		case 2: // all-zero masks
-			qe.Miscselect, qe.MiscselectMask = "00000000", "00000000"
-			qe.Attributes, qe.AttributesMask = strings.Repeat("00", 16), strings.Repeat("00", 16)
-		}
-		qe.TcbLevels = []world.Level{{Tcb: world.Tcb{Isvsvn: world.IntP(9)}, TcbDate: "2029-07-01T00:00:00Z", TcbStatus: "OutOfDate"},
-			{Tcb: world.Tcb{Isvsvn: world.IntP(8)}, TcbDate: "2029-06-01T00:00:00Z", TcbStatus: "UpToDate"},
-			{Tcb: world.Tcb{Isvsvn: world.IntP(2)}, TcbDate: "2028-06-01T00:00:00Z", TcbStatus: "Revoked"}}
-		w.QeID = qe
-		leafSN, interSN := w.PKI.Leaf.SerialNumber, w.PKI.Inter.SerialNumber
-		pm := func(v *big.Int, d int64) *big.Int { return new(big.Int).Add(v, big.NewInt(d)) }
-		var pckRev, rootRev []*big.Int
-		switch crl {
-		case 1:
-			pckRev, rootRev = []*big.Int{big.NewInt(99)}, []*big.Int{big.NewInt(98)}
-		case 2:
-			pckRev, rootRev = []*big.Int{pm(leafSN, 1), pm(leafSN, -1), interSN}, []*big.Int{pm(interSN, 1), leafSN, pm(w.PKI.Tcb.SerialNumber, -1)}
-		case 3:
-			for i := 0; i < 200; i++ {
-				pckRev = append(pckRev, big.NewInt(int64(5000+i)))
-				rootRev = append(rootRev, big.NewInt(int64(9000+i)))
-			}
-		}
-		w.PckCrl = world.MakeCRL(world.CRLSpec{Issuer: w.PKI.Inter, Signer: w.PKI.InterKey, Revoked: pckRev})
-		w.RootCrl = world.MakeCRL(world.CRLSpec{Issuer: w.PKI.Root, Signer: w.PKI.RootKey, Revoked: rootRev})
-		w.Finish()
-		// members the library's structures do not declare (Intel adds members to these documents over time):
-		// at the top level, inside every TCB level, inside every component, inside the TDX module / identities
-		if je := c.Choose("json-extra-members", 5); je != 0 {
-			edit := func(raw []byte) []byte {
-				switch je {
-				case 1:
-					return append(append([]byte{}, raw[:len(raw)-1]...), []byte(`,"futureMember":{"a":[1,2,{"b":null}]},"anotherOne":"x"}`)...)
-				case 2:
-					return bytes.ReplaceAll(raw, []byte(`{"tcb":`), []byte(`{"futureLevelMember":[],"tcb":`))
-				case 3:
-					return bytes.ReplaceAll(raw, []byte(`{"svn":`), []byte(`{"futureComponentMember":"y","svn":`))
-				case 4:
-					out := bytes.ReplaceAll(raw, []byte(`"mrsigner":`), []byte(`"futureIdentityMember":true,"mrsigner":`))
-					return bytes.ReplaceAll(out, []byte(`"isvsvn":`), []byte(`"futureTcbMember":0,"isvsvn":`))
-				}
-				return raw
-			}
-			w.TcbRaw, w.QeRaw = edit(w.TcbRaw), edit(w.QeRaw)
-			if !json.Valid(w.TcbRaw) || !json.Valid(w.QeRaw) {
-				r.HarnessError("C11: edited collateral is not valid JSON")
+		r.Explore(exName, exBound, func(c *mc.Ctx) {
+			fill := c.Choose("fill", len(fills))
+			al := c.Choose("authlen", len(authLens))
+			el := c.Choose("extra", len(extraLens))
+			nul := c.Choose("nul", 2)
+			sv := c.Choose("cpusvn", len(svnVecs))
+			pc := c.Choose("pcesvn", len(pceSvns))
+			fm := c.Choose("fmspc", len(fmspcs))
+			fcase := c.Choose("fmspc-case", 2)
+			lpos := c.Choose("level-position", 4)
+			svn1 := c.Choose("tee-svn1", 3)
+			qmask := c.Choose("qe-masks", 3)
+			crl := c.Choose("crl-contents", 4)
+			tm := c.Choose("times", 3)
+			pool := c.Choose("pool", 3)
+			li := c.Free("level", 3)
+			// (further dimensions are chosen below; the final id is taken after the last of them)
+			if id0 := "honest/" + c.ID(); r.ReplayID != "" && id0 != "honest/default" && !strings.HasPrefix(r.ReplayID, id0) {
 				return
 			}
-			w.TcbBody = world.SignedBody("tcbInfo", w.TcbRaw, w.PKI.TcbKey)
-			w.QeBody = world.SignedBody("enclaveIdentity", w.QeRaw, w.PKI.TcbKey)
-			w.BuildGetter()
-		}
-		switch tm {
-		case 1: // just after the latest notBefore / issue date
-			w.Now = world.TimeSetAt(world.T0.AddDate(0, 0, -5).Add(1))
-		case 2: // exactly at the earliest expiry (tcbInfo nextUpdate)
-			w.Now = world.TimeSetAt(world.T0.AddDate(0, 0, 20))
-		}
-		switch pool {
-		case 1:
-			w.Roots = world.Pool(U.Root, w.PKI.Root)
-		case 2:
-			w.Roots = world.Pool(w.PKI.Root, U.Root, world.CachedPKI("F").Root)
-		}
-		level := []int{world.L0, world.L1, world.L2}[li]
-		id := "honest/" + c.ID()
-		if !r.Want(id) {
-			return
-		}
-		// driver self-check: the reference agrees that this world is honest
-		raw := w.Raw()
-		if rp, perr := ref.ParseQuote(raw); perr != nil || !ref.LinksOf(rp).All() {
-			r.HarnessError("C11 driver self-check: generated honest quote is not honest (%v)", perr)
-			return
-		}
-		err := w.Verify(level)
-		out := verdict(err)
-		if err != nil {
-			r.Violate("honest-rejected:"+lvlName[level]+":"+c11Dims(c), id, "an honestly produced, in-date quote is rejected at "+lvlName[level]+": "+errStr(err), map[string]any{"raw_quote_hex_prefix": hexs(raw[:700])})
-			out += "!"
-		}
-		r.Eval(id, c.Deviations() > 0, lvlName[level]+":"+out)
-	})
+			w := world.Honest("T")
+			w.Plat.CPUSVN = svnVecs[sv]
+			w.Plat.PCESVN = pceSvns[pc]
+			w.Plat.FMSPC = fmspcs[fm]
+			ids := c.Choose("identifier-contents", 3)
+			switch ids {
+			case 1: // identifiers whose leading bytes read as a DER header of exactly the remaining length
+				w.Plat.PPID = append([]byte{0x04, 0x0e}, world.Fill("c11-ppid", 14)...)
+				w.Plat.PCEID = []byte{0x04, 0x00}
+				w.Plat.FMSPC = []byte{0x04, 0x04, 0xa1, 0xb2, 0xc3, 0xd4}
+			case 2: // ... of a SEQUENCE / INTEGER
+				w.Plat.PPID = append([]byte{0x30, 0x0e}, world.Fill("c11-ppid2", 14)...)
+				w.Plat.PCEID = []byte{0x02, 0x00}
+				w.Plat.FMSPC = []byte{0x02, 0x04, 0x7f, 0x00, 0x00, 0x01}
+			}
+			if sv != 0 || pc != 0 || fm != 0 || ids != 0 {
+				w.PKI = T.WithLeaf(w.Plat)
+			}
+			attKey := world.NewKey("att")
+			if ks := c.Choose("attestation-key-shape", 4); ks != 0 {
+				// keys whose X / Y coordinate starts with a zero octet (1 in 128 fresh keys), or with the high bit set
+				for n := 0; ; n++ {
+					k := world.NewKey(fmt.Sprintf("c11-att-shape%d-%d", ks, n))
+					raw := k.Raw64()
+					if (ks == 1 && raw[0] == 0) || (ks == 2 && raw[32] == 0) || (ks == 3 && raw[0] >= 0x80 && raw[32] >= 0x80) {
+						attKey = k
+						break
+					}
+				}
+			}
+			sp := world.QuoteSpec{PKI: w.PKI, AttKey: attKey, Auth: world.Fill("c11-auth", authLens[al]), Extra: world.Fill("c11-extra", extraLens[el]), NulAfter: nul == 1,
+				FillLabel: "c11", PceSvn: 0x0d07, QeSvn: 0x0208}
+			sp.TeeTcbSvn = []byte{3, []byte{0, 3, 0x0a}[svn1], 5, 0, 0, 0, 0, 0, 0, 0, 0, 0, 0, 0, 0, 1}
+			sp.MrSeamSigner = world.Fill("c11-seam", 48)
+			sp.SeamAttrs = []byte{1, 2, 3, 4, 5, 6, 7, 8}
+			sp.IsvProdID, sp.IsvSvn, sp.MiscSelect = 2, 8, 0x00ff00ff
+			sp.Attributes = []byte{0x15, 0, 0, 0, 0, 0, 0, 0, 0xe7, 0, 0, 0, 0, 0, 0, 0}
+			w.Spec = sp
+			p := sp.Parts()
+			// contents of the fields nothing else depends on
+			if fill != 0 {
+				v := byte(0)
+				if fills[fill] == "ff" {
+					v = 0xff
+				}
+				set := func(b []byte) {
+					for i := range b {
+						b[i] = v
+					}
+				}
+				set(p.Header[8:12])  // PCE SVN, QE SVN
+				set(p.Header[12:48]) // vendor id, user data
+				for _, f := range world.BodyFields {
+					if f.Name != "tee_tcb_svn" && f.Name != "mr_signer_seam" && f.Name != "seam_attributes" {
+						set(p.Body[f.Off : f.Off+f.Len])
+					}
+				}
+				for _, f := range world.QEReportFields {
+					switch f.Name {
+					case "cpu_svn", "reserved1", "mr_enclave", "reserved2", "reserved3", "reserved4":
+						set(p.QEReport[f.Off : f.Off+f.Len])
+					}
+				}
+				p.SignBody(attKey)
+				p.SignQE(w.PKI.LeafKey)
+			}
+			w.Parts = p
+			// collateral that matches this platform the way Intel would publish it
+			tee := p.Body[0:16]
+			ti := world.DefaultTcbInfo(w.Plat, tee)
+			ti.TdxModule = world.TdxModule{Mrsigner: hexs(sp.MrSeamSigner), Attributes: "0102030405060708", AttributesMask: "FFFFFFFFFFFFFFFF"}
+			if fcase == 1 {
+				ti.Fmspc = strings.ToUpper(ti.Fmspc)
+			}
+			match := world.PlatformLevel(w.Plat, tee, "UpToDate")
+			if tee[1] != 0 && c.Choose("level-tdx-components-0-1", 2) == 1 {
+				// with a non-zero module version the first two TDX components are not compared with the level's
+				nm := append([]world.Comp(nil), match.Tcb.Tdx...)
+				nm[0].Svn, nm[1].Svn = 255, int(tee[1])+1
+				match.Tcb.Tdx = nm
+			}
+			var before []world.Level
+			for k := 0; k < lpos && k < 3; k++ {
+				// levels that do not match: one component above the platform's, each with a different non-UpToDate status
+				l := world.PlatformLevel(w.Plat, tee, world.Statuses[1+2*k])
+				nm := append([]world.Comp(nil), l.Tcb.Tdx...)
+				nm[2+k].Svn = int(tee[2+k]) + 1 + k
+				l.Tcb.Tdx = nm
+				before = append(before, l)
+			}
+			lastDate := "2020-01-01T00:00:00Z"
+			if dm := c.Choose("level-dates", 3); dm != 0 {
+				if dm == 1 {
+					lastDate = "2026-01-01T00:00:00Z" // the always-matching OutOfDate level listed last is the newest
+				}
+				// dates that run against the listed order (or with it): the first matching level decides
+				for i := range before {
+					before[i].TcbDate = fmt.Sprintf("20%02d-03-01T00:00:00Z", map[int]int{1: 20 + i, 2: 35 - i}[dm])
+				}
+				match.TcbDate = fmt.Sprintf("20%02d-03-01T00:00:00Z", map[int]int{1: 24, 2: 30}[dm])
+			}
+			ti.TcbLevels = append(before, match, world.Level{Tcb: world.Tcb{Sgx: world.CompsOf(make([]byte, 16)), Pcesvn: world.IntP(0), Tdx: world.CompsOf(make([]byte, 16))}, TcbDate: lastDate, TcbStatus: "OutOfDate"})
+			if tee[1] != 0 {
+				ti.TdxModuleIdentities = []world.ModuleIdentity{
+					{ID: "TDX_01", Mrsigner: strings.Repeat("00", 48), Attributes: "0000000000000000", AttributesMask: "FFFFFFFFFFFFFFFF",
+						TcbLevels: []world.Level{{Tcb: world.Tcb{Isvsvn: world.IntP(2)}, TcbDate: "2029-01-01T00:00:00Z", TcbStatus: "OutOfDate"}}},
+					{ID: fmt.Sprintf("TDX_%02x", tee[1]), Mrsigner: strings.Repeat("00", 48), Attributes: "0000000000000000", AttributesMask: "FFFFFFFFFFFFFFFF",
+						TcbLevels: []world.Level{{Tcb: world.Tcb{Isvsvn: world.IntP(9)}, TcbDate: "2029-03-01T00:00:00Z", TcbStatus: "Revoked"},
+							{Tcb: world.Tcb{Isvsvn: world.IntP(int(tee[0]))}, TcbDate: "2029-01-01T00:00:00Z", TcbStatus: "UpToDate"},
+							{Tcb: world.Tcb{Isvsvn: world.IntP(1)}, TcbDate: "2028-01-01T00:00:00Z", TcbStatus: "OutOfDate"}}}}
+			}
+			w.TcbInfo = ti
+			qe := world.DefaultQeIdentity()
+			qe.IsvProdID = 2
+			ms := make([]byte, 4)
+			binary.LittleEndian.PutUint32(ms, sp.MiscSelect)
+			switch qmask {
+			case 0:
+				qe.Miscselect, qe.MiscselectMask = hexs(ms), "FFFFFFFF"
+				qe.Attributes, qe.AttributesMask = hexs(p.QEReport[48:64]), strings.Repeat("FF", 16)
+			case 1: // masks that hide part of the value
+				qe.Miscselect, qe.MiscselectMask = "ff00ff00", "ff00ff00"
+				qe.Attributes, qe.AttributesMask = "11000000000000000000000000000000", "fbffffffffffffff0000000000000000"
+			case 2: // all-zero masks
+				qe.Miscselect, qe.MiscselectMask = "00000000", "00000000"
+				qe.Attributes, qe.AttributesMask = strings.Repeat("00", 16), strings.Repeat("00", 16)
+			}
+			qe.TcbLevels = []world.Level{{Tcb: world.Tcb{Isvsvn: world.IntP(9)}, TcbDate: "2029-07-01T00:00:00Z", TcbStatus: "OutOfDate"},
+				{Tcb: world.Tcb{Isvsvn: world.IntP(8)}, TcbDate: "2029-06-01T00:00:00Z", TcbStatus: "UpToDate"},
+				{Tcb: world.Tcb{Isvsvn: world.IntP(2)}, TcbDate: "2028-06-01T00:00:00Z", TcbStatus: "Revoked"}}
+			w.QeID = qe
+			leafSN, interSN := w.PKI.Leaf.SerialNumber, w.PKI.Inter.SerialNumber
+			pm := func(v *big.Int, d int64) *big.Int { return new(big.Int).Add(v, big.NewInt(d)) }
+			var pckRev, rootRev []*big.Int
+			switch crl {
+			case 1:
+				pckRev, rootRev = []*big.Int{big.NewInt(99)}, []*big.Int{big.NewInt(98)}
+			case 2:
+				pckRev, rootRev = []*big.Int{pm(leafSN, 1), pm(leafSN, -1), interSN}, []*big.Int{pm(interSN, 1), leafSN, pm(w.PKI.Tcb.SerialNumber, -1)}
+			case 3:
+				for i := 0; i < 200; i++ {
+					pckRev = append(pckRev, big.NewInt(int64(5000+i)))
+					rootRev = append(rootRev, big.NewInt(int64(9000+i)))
+				}
+			}
+			w.PckCrl = world.MakeCRL(world.CRLSpec{Issuer: w.PKI.Inter, Signer: w.PKI.InterKey, Revoked: pckRev})
+			w.RootCrl = world.MakeCRL(world.CRLSpec{Issuer: w.PKI.Root, Signer: w.PKI.RootKey, Revoked: rootRev})
+			w.Finish()
+			// members the library's structures do not declare (Intel adds members to these documents over time):
+			// at the top level, inside every TCB level, inside every component, inside the TDX module / identities
+			if je := c.Choose("json-extra-members", 5); je != 0 {
+				edit := func(raw []byte) []byte {
+					switch je {
+					case 1:
+						return append(append([]byte{}, raw[:len(raw)-1]...), []byte(`,"futureMember":{"a":[1,2,{"b":null}]},"anotherOne":"x"}`)...)
+					case 2:
+						return bytes.ReplaceAll(raw, []byte(`{"tcb":`), []byte(`{"futureLevelMember":[],"tcb":`))
+					case 3:
+						return bytes.ReplaceAll(raw, []byte(`{"svn":`), []byte(`{"futureComponentMember":"y","svn":`))
+					case 4:
+						out := bytes.ReplaceAll(raw, []byte(`"mrsigner":`), []byte(`"futureIdentityMember":true,"mrsigner":`))
+						return bytes.ReplaceAll(out, []byte(`"isvsvn":`), []byte(`"futureTcbMember":0,"isvsvn":`))
+					}
+					return raw
+				}
+				w.TcbRaw, w.QeRaw = edit(w.TcbRaw), edit(w.QeRaw)
+				if !json.Valid(w.TcbRaw) || !json.Valid(w.QeRaw) {
+					r.HarnessError("C11: edited collateral is not valid JSON")
+					return
+				}
+				w.TcbBody = world.SignedBody("tcbInfo", w.TcbRaw, w.PKI.TcbKey)
+				w.QeBody = world.SignedBody("enclaveIdentity", w.QeRaw, w.PKI.TcbKey)
+				w.BuildGetter()
+			}
+			switch tm {
+			case 1: // just after the latest notBefore / issue date
+				w.Now = world.TimeSetAt(world.T0.AddDate(0, 0, -5).Add(1))
+			case 2: // exactly at the earliest expiry (tcbInfo nextUpdate)
+				w.Now = world.TimeSetAt(world.T0.AddDate(0, 0, 20))
+			}
+			switch pool {
+			case 1:
+				w.Roots = world.Pool(U.Root, w.PKI.Root)
+			case 2:
+				w.Roots = world.Pool(w.PKI.Root, U.Root, world.CachedPKI("F").Root)
+			}
+			level := []int{world.L0, world.L1, world.L2}[li]
+			id := "honest/" + c.ID() + world.LogTag()
+			if !r.Want(id) {
+				return
+			}
+			// driver self-check: the reference agrees that this world is honest
+			raw := w.Raw()
+			if rp, perr := ref.ParseQuote(raw); perr != nil || !ref.LinksOf(rp).All() {
+				r.HarnessError("C11 driver self-check: generated honest quote is not honest (%v)", perr)
+				return
+			}
+			err := w.Verify(level)
+			out := verdict(err)
+			if err != nil {
+				r.Violate("honest-rejected:"+lvlName[level]+":"+c11Dims(c), id, "an honestly produced, in-date quote is rejected at "+lvlName[level]+": "+errStr(err), map[string]any{"raw_quote_hex_prefix": hexs(raw[:700])})
+				out += "!"
+			}
+			r.Eval(id, c.Deviations() > 0, lvlName[level]+":"+out)
+		})
+	}
+	world.SetLogLevel(0)
 
 	c11SignatureShapes(r)
 
